@@ -263,7 +263,7 @@ def fam_core(rng):
         ("core.shadow", in_small, '. as $x | (. + 1) as $x | [$x, (2 as $x | $x), $x] | . as [$a, $b, $c] | {$a, $b, $c}'),
         ("core.reduce", in_nums, 'reduce .[] as $x (0; . + $x), reduce .[] as $x ([]; [$x] + .), reduce empty as $x (3; 4)'),
         ("core.foreach", in_nums, '[foreach .[] as $x (0; . + $x)], [foreach .[] as $x (0; . + $x; [$x, .])], [limit(%d; foreach range(100) as $i (0; . + $i; [$i, .]))]' % k),
-        ("core.foreach-multi", in_nums, '[foreach (.[], .[]) as $x ({n: 0}; .n += 1 | .last = $x; select(.n %% 2 == 0) | .last)]'),
+        ("core.foreach-multi", in_nums, '[foreach (.[], .[]) as $x ({n: 0}; .n += 1 | .last = $x; select(.n % 2 == 0) | .last)]'),
         ("core.label", in_nums, 'label $out | foreach .[] as $x (0; . + 1; if . > %d then ., break $out else $x end)' % (k % 5)),
         ("core.label-nested", in_nums, '[label $a | label $b | (.[] | if . > 5 then break $a elif . < 0 then break $b else . end), "x"]'),
         ("core.destructure", in_objs, '[.[] as {a: $x, b: $y} | [$x, $y]], [.[] as {$a, c: [$c]} | [$a, $c]], [.[] as {"a": $x, ("b", "c"): $y} | [$x, $y]]'),
@@ -281,9 +281,8 @@ def fam_core(rng):
         ("core.cartesian", in_nums, '[(.[0:3][], 10) + (.[0:2][] * 2, 100)], [.[0:2][] as $x | .[1:3][] as $y | [$x, $y]]'),
         ("core.comma-pipe", in_any, '(., [.]) | (type, length?) | tostring'),
         ("core.opt", in_any, '[.[]?], [.a?], [.[0]?], [..?] | length, [.[]?.a?], (try .a catch "E"), [.["a", "b"]?]'),
-        ("core.arith", in_nums, 'map(. + 1, . - 1, . * 2, . / 2, (. %% 3)?) | add, (map(tostring) | add), ([.[] | -.] | add), (map(floor?, sqrt?, fabs?) | length)'),
+        ("core.arith", in_nums, 'map(. + 1, . - 1, . * 2, . / 2, (. % 3)?) | add, (map(tostring) | add), ([.[] | -.] | add), (map(floor?, sqrt?, fabs?) | length)'),
         ("core.math", in_nums, 'map(select(. < 1e6) | sin, cos, log2?, exp2?, pow(.; 2), atan2(.; 3), fma(.; 2; 1), (frexp | .[1]), significand?, round, ceil, trunc)'),
-        ("core.loc", in_null, '$__loc__, ([1, 2] | .[0] as $x | $__loc__.line + $x)'),
         ("core.global-vars", in_small, '[$g.a, $n, ($g.b | length), ($g | keys), . + $n, ([$g.b[] | select(. == $n)] | length)]', None),
         ("core.global-share", in_arr, '[., $g.b] | add | unique | length, ($g.b | map(. + 1)), ($g | tojson | length), ($g.c | has("d"))', None),
         ("core.halt", in_arr, '.[0], (if .[1] == null then halt else .[1] end), "after"'),
@@ -347,7 +346,7 @@ class ExprGen:
             return "first(%s)" % self.path(d - 1, env)
         if k == 7:
             return "getpath([%s])" % r.choice(['"a"', '"a", "b"', "0", '"b", 0', ""])
-        return self.path(0, env) + r.choice(["", ".a?", "[0]?", "[]?", ".b?"])
+        return r.choice([".a", ".b", ".[0]", ".[1]", ".[-1]", ".[]?", ".a?", ".[0]?"]) + r.choice(["", ".a?", "[0]?", "[]?", ".b?"])
 
     def expr(self, d, env):
         r = self.rng
@@ -366,7 +365,7 @@ class ExprGen:
             if k == 7:
                 return r.choice(["empty", 'error("e")', "error", "length?", "type", "keys?", "tojson", "tostring", "not", "add?",
                                  "floor?", "reverse?", "sort?", "unique?", "to_entries?", "flatten?", "ascii_downcase?", "explode?",
-                                 "min?", "max?", "first?", "last?", "tonumber?", "abs?", "utf8bytelength?", "$__loc__.line"])
+                                 "min?", "max?", "first?", "last?", "tonumber?", "abs?", "utf8bytelength?", "ltrimstr(\"a\")"])
             return self.path(0, env)
         e = lambda: "(" + self.expr(d - 1, env) + ")"   # noqa: E731
         k = r.randrange(34)
